@@ -523,6 +523,34 @@ def run(ctx):
                     "python": "props.c12.check_arcset on the MIRP built as in section 1c of props/c12.py"})
         dist["named_port_builds"] = dist.get("named_port_builds", 0) + 1
 
+    # ---- 1d. the helper's own graph still has exactly the specified arc set after the formulations were requested (the
+    #          heuristics add dummy arcs to THEIR copies; e.g. a depot -> demand-visit arc in the helper's graph would break
+    #          "arcs leaving the depot lead only to loading nodes") ----
+    for (size, H, ports, limit) in ((2, 9, [("S1", 0, 1, 3), ("D1", 3, -1, 3), ("D2", 2, -1, 3)], 4),
+                                    (1, 6, [("S1", 0.5, 0.5, 1.5), ("D1", 1.0, -0.5, 1.5)], 3)):
+        log = []
+        with recorded_calls(log):
+            m = MIRP(cargo_size=size, time_horizon=H)
+            for pt in ports:
+                m.add_nodes(*pt)
+            m.add_travel_arcs(lambda a, b: 1.0, 1.0, 1.0, {pt[0]: 1.0 for pt in ports if pt[2] > 0}, {pt[0]: 2.0 for pt in ports if pt[2] < 0})
+            m.add_exit_arcs()
+            m.add_entry_arcs(time_limit=limit)
+        spec = spec_from_log(log)
+        for getter in ("get_arc_based", "get_sequence_based", "get_path_based"):
+            try:
+                getattr(m, getter)()
+            except Exception:  # noqa: a heuristic may fail loudly; the helper's graph must be intact anyway
+                pass
+            msg = check_alternation(m, stats=stats) or check_arcset(m, spec)
+            if msg:
+                report(sig_of(msg) + "/after-getters", f"MIRP (cargo {size}, horizon {H}, ports {ports}) after {getter}(): {msg}",
+                       {"input": {"cargo_size": size, "time_horizon": H, "ports": [list(pt) for pt in ports], "entry_limit": limit,
+                                  "calls": ["get_arc_based", "get_sequence_based", "get_path_based"]},
+                        "python": "props.c12.check_arcset on the MIRP of section 1d of props/c12.py after the getters"})
+                break
+        dist["builds_rechecked_after_getters"] = dist.get("builds_rechecked_after_getters", 0) + 1
+
     # ---- 2. exact builds: oracle + correspondence ----
     cases = []
     terms = []
